@@ -400,6 +400,7 @@ func (m *MuxMon) checkTables(h *MuxH, c *MCall, pat, pmt *ref.Pkt, add func(prop
 	secs, framed := ref.ParseUnit(pat.Payload)
 	if !framed || len(secs) != 1 || !secs[0].Complete || secs[0].Kind != "PAT" || !secs[0].CRCOK {
 		add("C04", "pat-section-malformed", "PAT payload is not one well-formed section with a valid CRC")
+		add("C17", "pat-section-malformed", "PAT payload is not one well-formed section with a valid CRC")
 	} else {
 		s := secs[0]
 		es, ok := ref.DecodePAT(s.Body)
@@ -420,6 +421,7 @@ func (m *MuxMon) checkTables(h *MuxH, c *MCall, pat, pmt *ref.Pkt, add func(prop
 	m.OversizeSincePMT, m.OversizeDirtySince = 0, 0
 	if !framed || len(secs) != 1 || !secs[0].Complete || secs[0].Kind != "PMT" || !secs[0].CRCOK {
 		add("C04", "pmt-section-malformed", "PMT payload is not one well-formed section with a valid CRC")
+		add("C17", "pmt-section-malformed", "PMT payload is not one well-formed section with a valid CRC")
 		return
 	}
 	s := secs[0]
